@@ -61,11 +61,20 @@ def main():
     seed = int(os.environ.get("VERIF_SEED", "0") or 0)
     t0 = time.time()
     try:
-        fdir, th, info = extract.extract("debug")
+        if os.environ.get("VERIF_FACTS_DIR"):
+            # developer aid (tools/evalset.py): analyse an already extracted fact set of a scratch variant
+            fdir, th, info = os.environ["VERIF_FACTS_DIR"], "override", {"cached": True, "override": True}
+        else:
+            fdir, th, info = extract.extract("debug")
     except extract.BuildError as e:
         print("INCONCLUSIVE build: /repo does not type-check under cargo +nightly check\n" + str(e)[-3000:])
         sys.exit(2)
     F = Facts(fdir)
+    kf = os.path.join(VERIF, "baseline", "functions.json")
+    absorbed = []
+    if os.path.exists(kf):
+        import facts as _facts
+        absorbed = _facts.absorb_new_functions(F, json.load(open(kf)))
     mod = load_rules(prop)
     ctx = Ctx(F, prop, tier)
     ctx.facts_dir = fdir
@@ -159,7 +168,7 @@ def main():
             "facts": info,
             "known_findings": [o["key"] for o in knowns],
             "violation_keys": [o["key"] for o in viols],
-            "notes": ctx.notes,
+            "notes": ctx.notes + (["functions absent from the reviewed tree were inlined into their callers: %s" % absorbed[:12]] if absorbed else []),
             "thorough": thorough,
         },
         "assumptions": getattr(mod, "ASSUMPTIONS", []) + [
